@@ -470,6 +470,11 @@ pub enum FillMode {
     /// source); only used by monitors whose oracle does not assume full non-final blocks
     IntShort,
     BytesShort,
+    /// like Int / Bytes (full blocks), but every second read first hands over an EMPTY block and
+    /// then the data inside the same read (a source chaining inner sources, see
+    /// `TestSource::empty_fill_every`)
+    IntChained,
+    BytesChained,
 }
 
 #[derive(Clone, Debug)]
@@ -621,15 +626,16 @@ impl Source for TestSource {
             }
         }
         let data: &[i32] = owned.as_deref().unwrap_or(slice);
-        if self.empty_fill_every > 0 && (k + 1) % self.empty_fill_every == 0 && n > 0 {
+        let empty_fill_every = if matches!(self.mode, FillMode::IntChained | FillMode::BytesChained) && self.empty_fill_every == 0 { 2 } else { self.empty_fill_every };
+        if empty_fill_every > 0 && (k + 1) % empty_fill_every == 0 && n > 0 {
             match self.mode {
-                FillMode::Int | FillMode::IntShort => dest.fill_interleaved(&[])?,
-                FillMode::Bytes | FillMode::BytesShort => dest.fill_le_bytes(&[], self.bytes_per_sample.unwrap_or((self.audio.bps + 7) / 8))?,
+                FillMode::Int | FillMode::IntShort | FillMode::IntChained => dest.fill_interleaved(&[])?,
+                FillMode::Bytes | FillMode::BytesShort | FillMode::BytesChained => dest.fill_le_bytes(&[], self.bytes_per_sample.unwrap_or((self.audio.bps + 7) / 8))?,
             }
         }
         match self.mode {
-            FillMode::Int | FillMode::IntShort => dest.fill_interleaved(data)?,
-            FillMode::Bytes | FillMode::BytesShort => {
+            FillMode::Int | FillMode::IntShort | FillMode::IntChained => dest.fill_interleaved(data)?,
+            FillMode::Bytes | FillMode::BytesShort | FillMode::BytesChained => {
                 let b = self.bytes_per_sample.unwrap_or((self.audio.bps + 7) / 8);
                 // the byte slice handed over starts at every alignment 0..=3 in turn (a reader
                 // slicing into an I/O buffer gives no alignment guarantee)
